@@ -37,7 +37,8 @@ class C19(Machine):
                    "silence_level_ge1_with_mpi", "empty_pool_batch",
                    "wrong_order_refused", "generated_ids", "pinned_slave",
                    "get_next_result_used", "fault_horizon_reached",
-                   "empty_chunk", "example_program_mc",
+                   "empty_chunk", "ids_reused_in_second_wave",
+                   "example_program_mc",
                    "example_program_large")
     # reported, never judged (DESIGN §4 C19): all sends synchronous
     info_probes = ("zero_buffer_deadlock", "zero_buffer_completed")
@@ -163,6 +164,7 @@ class C19(Machine):
             cfg["collect"] = a.choice(("submission", "fifo_random",
                                        "get_next", "wrong_first"))
             cfg["time_est"] = a.choice(("default", "varied"))
+            cfg["waves"] = a.choice((1, 1, 2))
             cfg["vseed"] = a.randrange(10 ** 9)
         return run
 
@@ -484,6 +486,19 @@ class C19(Machine):
         pid = self.pid
 
         def master(mpi, R):
+            out = one_wave(mpi, R)
+            if cfg.get("waves", 1) == 2:
+                # ids "can be re-used after get_result()": a second wave
+                # with the same ids must give the same result
+                R.probe("ids_reused_in_second_wave")
+                out2 = one_wave(mpi, R)
+                if not np.array_equal(out, out2):
+                    R.violate(f"{pid}|protocol|{kernel}|second-wave",
+                              "re-using the ids after all results had been "
+                              "collected gave a different reassembly")
+            return out
+
+        def one_wave(mpi, R):
             ids = []
             size = mpi.size
             for ci, (s, e) in enumerate(chunks):
